@@ -182,7 +182,10 @@ func SoloMain(args []string) ([]byte, error) {
 	if err1 != nil || err2 != nil || err3 != nil || k < 0 || k >= nWorkloads {
 		return nil, fmt.Errorf("bad arguments")
 	}
-	return runWorkload(wlInput{kind: k, opt: o, data: d}), nil
+	in := wlInput{kind: k, opt: o, data: d}
+	prepareFile(&in)
+	defer Cleanup()
+	return runWorkload(in), nil
 }
 
 // RunC20 is one simulated execution for property C20.
@@ -255,6 +258,15 @@ func RunC20(ctx *core.Ctx) *core.Violation {
 			d := drawWorkload(t, ins[i].kind)
 			d.opt = ins[i].opt
 			decoy2[i] = &d
+		}
+	}
+	for i := range ins {
+		prepareFile(&ins[i])
+		if decoy1[i] != nil {
+			prepareFile(decoy1[i])
+		}
+		if decoy2[i] != nil {
+			prepareFile(decoy2[i])
 		}
 	}
 	before := pkgState()
